@@ -2,6 +2,7 @@ package nc
 
 import (
 	"fmt"
+	"go/token"
 	"go/types"
 	"strings"
 
@@ -247,6 +248,25 @@ func (o *Origins) IsFailureReturn(r *ssa.Return) bool {
 	if !IsErrorType(ev.Type()) {
 		return false
 	}
+	// functions with defers return through result cells: look at every value that may be stored there
+	if ld, ok := ev.(*ssa.UnOp); ok && ld.Op == token.MUL {
+		if cell, ok := ld.X.(*ssa.Alloc); ok {
+			vals, complete := o.reachingValues(cell, ld)
+			if complete && len(vals) > 0 {
+				for _, v := range vals {
+					if !o.isNonNilErrorAt(v, r) {
+						return false
+					}
+				}
+				return true
+			}
+		}
+	}
+	return o.isNonNilErrorAt(ev, r)
+}
+
+// isNonNilErrorAt: the error value ev, returned by r, is certainly non-nil.
+func (o *Origins) isNonNilErrorAt(ev ssa.Value, r *ssa.Return) bool {
 	if isNilConst(ev) {
 		return false
 	}
@@ -382,4 +402,49 @@ func (o *Origins) ReachAvoiding(from ssa.Instruction, target ssa.Instruction, cu
 func ResetSummaries() {
 	summaryMemo = map[summaryKey]bool{}
 	summaryBusy = map[summaryKey]bool{}
+}
+
+// reachingValues lists the SSA values that may be stored in a whole local cell at the given load
+// (backward search over the CFG). complete is false when something other than plain stores may
+// write the cell.
+func (o *Origins) reachingValues(cell *ssa.Alloc, at ssa.Instruction) ([]ssa.Value, bool) {
+	var out []ssa.Value
+	complete := true
+	// the cell must only be used by loads and stores
+	for _, r := range *cell.Referrers() {
+		switch x := r.(type) {
+		case *ssa.Store:
+			if x.Addr != ssa.Value(cell) {
+				complete = false
+			}
+		case *ssa.UnOp, *ssa.DebugRef:
+		default:
+			complete = false
+		}
+	}
+	visited := map[*ssa.BasicBlock]bool{}
+	var scan func(b *ssa.BasicBlock, upto int)
+	scan = func(b *ssa.BasicBlock, upto int) {
+		for i := upto - 1; i >= 0; i-- {
+			if st, ok := b.Instrs[i].(*ssa.Store); ok && st.Addr == ssa.Value(cell) {
+				out = append(out, st.Val)
+				return
+			}
+			if b.Instrs[i] == ssa.Instruction(cell) {
+				return
+			}
+		}
+		if len(b.Preds) == 0 {
+			complete = false
+			return
+		}
+		for _, p := range b.Preds {
+			if !visited[p] {
+				visited[p] = true
+				scan(p, len(p.Instrs))
+			}
+		}
+	}
+	scan(at.Block(), instrIndex(at))
+	return out, complete
 }
